@@ -7,6 +7,7 @@ miss=0; n=0
 for d in seeded/${pre}*; do
   [ -f "$d/patch.diff" ] || continue
   id=$(basename "$d"); prop=${id%%-*}
+  if grep -q '"obsolete"' "$d/meta.json" 2>/dev/null; then echo "OBSOLETE $id (no longer breaks the property on the repaired tree, see meta.json)"; continue; fi
   out=$(tools/try_mutant.sh "$d/patch.diff" "$tier" "$prop" 2>&1)
   n=$((n+1))
   if echo "$out" | grep -q "^VIOLATION"; then echo "CAUGHT $id"; 
